@@ -55,6 +55,6 @@ PROPS = {
         # runtime, as all workers did before the lock-level yield points existed); counted in stats as chaos_runs
         "chaos_workers": 3, "chaos_cpu": 4,
         "quick": {"runs": 3500, "budget_s": 170, "workers": 14},
-        "thorough": {"runs": 45000, "budget_s": 2300, "workers": 16},
+        "thorough": {"runs": 45000, "budget_s": 1500, "workers": 16},
     },
 }
